@@ -35,6 +35,11 @@ pub trait Engine {
     fn judge(&self, _ev: &Value, expected: &Value, got: &Value) -> u8 {
         if self.matches(expected, got) { 0 } else { 2 }
     }
+    /// A deviation that matches a specific, separately recorded finding: the
+    /// canonical key (the driver decides whether it is listed).
+    fn finding_key(&self, _ev: &Value, _expected: &Value, _got: &Value) -> Option<String> {
+        None
+    }
     /// Extra command-line arguments (e.g. `--focus C03`).
     fn configure(&mut self, _args: &[String]) {}
     /// Counters proving the antecedents were exercised (vacuity guard).
@@ -62,6 +67,7 @@ pub fn replay<E: Engine>(eng: &mut E, input: &mut dyn BufRead, opts: &ReplayOpts
     let mut n_drift = 0u64;
     let mut drifts: Vec<Value> = Vec::new();
     let mut n_panic = 0u64;
+    let mut findings: std::collections::BTreeMap<String, Value> = Default::default();
     let mut samples: Vec<Value> = Vec::new();
     let mut line = String::new();
     let mut tlc_tail: Vec<String> = Vec::new();
@@ -127,6 +133,14 @@ pub fn replay<E: Engine>(eng: &mut E, input: &mut dyn BufRead, opts: &ReplayOpts
             match r {
                 Ok(got) => {
                     if opts.check_all_steps || i == last {
+                        if let Some(k) = eng.finding_key(e, o, &got) {
+                            let ent = findings.entry(k).or_insert_with(|| json!({"count": 0, "first": null}));
+                            ent["count"] = json!(ent["count"].as_u64().unwrap() + 1);
+                            if ent["first"].is_null() {
+                                ent["first"] = json!({"case": case, "step": i, "expected": o, "got": got});
+                            }
+                            break;
+                        }
                         match eng.judge(e, o, &got) {
                             0 => {}
                             1 => {
@@ -168,6 +182,7 @@ pub fn replay<E: Engine>(eng: &mut E, input: &mut dyn BufRead, opts: &ReplayOpts
         "mismatch_count": n_mismatch,
         "drift_count": n_drift,
         "drifts": drifts,
+        "findings": findings,
         "panic_count": n_panic,
         "mismatches": mismatches,
         "samples": samples,
